@@ -27,9 +27,12 @@ type c19Case struct {
 	Pre  int     `json:"pre"`  // sentinel octets before the window in the backing array
 	Post int     `json:"post"` // sentinel octets after the window (cap > len)
 	Ops  []c19Op `json:"ops"`
+	// BigLen > 0: the window is BigLen octets of a fixed pattern (octet i = i*31+7) instead of Buf — buffers
+	// beyond the 8- and 16-bit marks without megabytes of hex in the case
+	BigLen int `json:"big_len,omitempty"`
 }
 
-const c19Rule = "case = buffer (0..64 octets, window into a sentinel-filled array so cap>len) + 1..40 reader operations " +
+const c19Rule = "case = buffer (0..64 octets, in 1 case of 16 a patterned buffer of 255..1 Mi octets around the 8-, 16- and 17-bit marks; window into a sentinel-filled array so cap>len) + 1..40 reader operations " +
 	"(Uint8/16/32/64, Read n, Peek n, PeekUint16, Len, ReadCount; n in 0..len+8 and huge values up to MaxInt); " +
 	"non-trivial = a failed read is later followed by a successful read and the sequence has >=1 peek; distinct by hash of the case"
 
@@ -37,15 +40,23 @@ func genC19(t *rapid.T) c19Case {
 	n := rapid.OneOf(rapid.IntRange(0, 12), rapid.IntRange(0, 64)).Draw(t, "len")
 	buf := rapid.SliceOfN(rapid.Byte(), n, n).Draw(t, "buf")
 	c := c19Case{Buf: hex.EncodeToString(buf), Pre: rapid.IntRange(0, 9).Draw(t, "pre"), Post: rapid.IntRange(0, 9).Draw(t, "post")}
+	if rapid.IntRange(0, 15).Draw(t, "big") == 0 {
+		c.Buf = ""
+		c.BigLen = rapid.SampledFrom([]int{255, 256, 257, 32768, 65535, 65536, 65537, 65600, 70000, 131071, 131072, 131080, 1 << 20}).Draw(t, "biglen")
+		n = c.BigLen
+	}
 	nops := rapid.IntRange(1, 40).Draw(t, "nops")
 	names := []string{"u8", "u16", "u32", "u64", "read", "peek", "peek16", "len", "count"}
 	for i := 0; i < nops; i++ {
 		op := c19Op{Op: rapid.SampledFrom(names).Draw(t, "op")}
 		if op.Op == "read" || op.Op == "peek" {
-			op.N = rapid.OneOf(rapid.IntRange(0, 9), rapid.IntRange(0, n+8),
+			op.N = rapid.OneOf(rapid.IntRange(0, 9), rapid.IntRange(0, n+8), rapid.SampledFrom([]int{n, n - 1, n / 2, n - 8, 127, 128, 256, 32767, 32768, 65534}),
 				// lengths far beyond any buffer (a bounds check that adds to the length must not wrap)
 				rapid.SampledFrom([]int{255, 65535, 65536, 1 << 31, 1<<31 - 1, 1 << 32, math.MaxInt - 2, math.MaxInt - 1, math.MaxInt, math.MaxInt - 64}),
 			).Draw(t, "n")
+			if op.N < 0 {
+				op.N = 0 // lengths come from unsigned wire fields: never negative
+			}
 		}
 		c.Ops = append(c.Ops, op)
 	}
@@ -56,6 +67,17 @@ func runC19(c c19Case) (v verdict, sig string, err error) {
 	buf, e := hex.DecodeString(c.Buf)
 	if e != nil {
 		return v, "", fmt.Errorf("bad case: %v", e)
+	}
+	if c.BigLen > 0 {
+		if c.BigLen > 1<<22 {
+			return v, "", fmt.Errorf("bad case: big_len")
+		}
+		buf = make([]byte, c.BigLen)
+		for i := range buf {
+			buf[i] = byte(i*31 + 7)
+		}
+		v.label(true, "buffer>=255-octets")
+		v.label(c.BigLen >= 65536, "buffer>=64KiB")
 	}
 	// backing array: pre sentinels | window | post sentinels
 	back := make([]byte, c.Pre+len(buf)+c.Post)
